@@ -814,3 +814,82 @@ func (x *dbExec) window(db *simpledb.DB, s dbStep) {
 		<-g
 	}
 }
+
+// ---- engine "lifecycle": call sequences on ONE handle in every phase (new / open / closed) - Lifecycle.tla
+type lifecycleIn struct {
+	Dir  string     `json:"dir"`
+	Seqs [][]string `json:"seqs"`
+}
+
+func init() { register("lifecycle", runLifecycle) }
+
+func lifeErr(err error) string {
+	switch {
+	case err == nil:
+		return "ok"
+	case errors.Is(err, simpledb.ErrNotOpenedYet):
+		return "ErrNotOpenedYet"
+	case errors.Is(err, simpledb.ErrAlreadyOpen):
+		return "ErrAlreadyOpen"
+	case errors.Is(err, simpledb.ErrAlreadyClosed):
+		return "ErrAlreadyClosed"
+	case errors.Is(err, simpledb.ErrNotFound):
+		return "none"
+	}
+	return "err:" + err.Error()
+}
+
+func runLifecycle(args []string) error {
+	var in lifecycleIn
+	if err := readJSON(args[0], &in); err != nil {
+		return err
+	}
+	tr, err := newTrace(args[1])
+	if err != nil {
+		return err
+	}
+	defer tr.close()
+	log.SetOutput(io.Discard)
+	for si, seq := range in.Seqs {
+		dir := filepath.Join(in.Dir, fmt.Sprintf("lc%d", si))
+		os.MkdirAll(dir, 0o700)
+		db, err := simpledb.NewSimpleDB(dir, simpledb.DisableCompactions())
+		if err != nil {
+			return err
+		}
+		calls := []M{}
+		opened, closed := false, false
+		for i, op := range seq {
+			v := fmt.Sprintf("v%d", i)
+			r := ""
+			switch op {
+			case "open":
+				e := db.Open()
+				r = lifeErr(e)
+				opened = opened || e == nil
+			case "close":
+				e := db.Close()
+				r = lifeErr(e)
+				closed = closed || e == nil
+			case "put":
+				r = lifeErr(db.Put("k", v))
+			case "del":
+				r = lifeErr(db.Delete("k"))
+			case "get":
+				got, e := db.Get("k")
+				if e == nil {
+					r = got
+				} else {
+					r = lifeErr(e)
+				}
+			}
+			calls = append(calls, M{"op": op, "v": v, "r": r})
+		}
+		if opened && !closed {
+			db.Close()
+		}
+		tr.emit(M{"t": "seq", "calls": calls})
+		os.RemoveAll(dir)
+	}
+	return nil
+}
